@@ -206,9 +206,9 @@ func checkC01(c *Ctx, r *Report) {
 		env := NewLinEnv(p, fn)
 		env.lenSum = func(c2 *ssa.Function, call2 *ssa.Call, en *LinEnv) ([]*Lin, bool) { return retLenSummary(p, c2, 0, call2, en, 0) }
 		for _, b := range fn.Blocks {
-			if ret, ok := b.Instrs[len(b.Instrs)-1].(*ssa.Return); ok && isNilConst(ret.Results[2]) {
+			if ret, ok := b.Instrs[len(b.Instrs)-1].(*ssa.Return); ok && isNilConst(retVals(ret)[2]) {
 				for i, nm := range []string{"r", "s"} {
-					ls, ok := env.Len(ret.Results[i])
+					ls, ok := env.Len(retVals(ret)[i])
 					r.Check(ok && len(ls) == 1 && ls[0].IsConst() && ls[0].C == 32, "L-RET", "sm2.SignHashed "+nm+" is 32 bytes", p.InstrPos(ret), fmt.Sprintf("length set %v", linStrs(ls)))
 				}
 			}
